@@ -104,9 +104,25 @@ theorem parseUna_pres (k : Kcp) (una : U32) : PresN 0 k (parseUna k una).1 := by
   unfold parseUna
   exact ⟨rfl, rfl, rfl, rfl, rfl, fun _ h => h.drop _, fun hb hq => ⟨hb, hq⟩, Nat.le_refl _⟩
 
+theorem dropAcked_dataLe {m : Nat} {l : List Seg} (h : DataLe m l) : DataLe m (dropAcked l) := by
+  induction l with
+  | nil => exact h
+  | cons s rest ih =>
+    unfold dropAcked
+    split
+    · exact ih h.tail
+    · exact h
+
+/-- `shrink_buf` (which now also pops the acknowledged head segments) only drops segments and
+rewrites `snd_una` -/
 theorem shrinkBuf_pres (k : Kcp) : PresN 0 k (shrinkBuf k) := by
   unfold shrinkBuf
-  split <;> exact PresN.of_eq rfl rfl rfl rfl rfl rfl rfl rfl rfl
+  split
+  · rename_i s rest hd
+    exact ⟨rfl, rfl, rfl, rfl, rfl, fun _ h => by
+      show DataLe _ (s :: rest); rw [← hd]; exact dropAcked_dataLe h,
+      fun hb hq => ⟨hb, hq⟩, Nat.le_refl _⟩
+  · exact ⟨rfl, rfl, rfl, rfl, rfl, fun m _ => DataLe.nil m, fun hb hq => ⟨hb, hq⟩, Nat.le_refl _⟩
 
 theorem parseAck_pres (k : Kcp) (sn : U32) : PresN 0 k (parseAck k sn) := by
   unfold parseAck
@@ -147,7 +163,7 @@ def segStep (regular : Bool) (st : InLoop) (conv : U32) (cmd frg : BitVec 8) (wn
   let pu := parseUna k1 una
   let st1 := { st with k := shrinkBuf pu.1, flushSeg := st.flushSeg || decide (pu.2 > 0) }
   if cmd.toNat = IKCP_CMD_ACK then
-    let k2 := parseAck st1.k sn
+    let k2 := shrinkBuf (parseAck st1.k sn)
     let pf := parseFastack k2 sn ts
     { st1 with k := pf.1, flushSeg := st1.flushSeg || pf.2, updRtt := true, latest := ts }
   else if cmd.toNat = IKCP_CMD_PUSH then
@@ -216,7 +232,7 @@ theorem segStep_ok (regular : Bool) (st : InLoop) (conv : U32) (cmd frg : BitVec
   · rw [if_pos hack]
     have hne : cmd.toNat ≠ IKCP_CMD_PUSH := by rw [hack]; decide
     rw [if_neg hne]
-    exact ⟨hst, rfl, (hk2.trans (parseAck_pres k2 sn)).trans (parseFastack_pres _ sn ts)⟩
+    exact ⟨hst, rfl, ((hk2.trans (parseAck_pres k2 sn)).trans (shrinkBuf_pres _)).trans (parseFastack_pres _ sn ts)⟩
   · rw [if_neg hack]
     by_cases hpush : cmd.toNat = IKCP_CMD_PUSH
     · rw [if_pos hpush, if_pos hpush]
